@@ -207,6 +207,14 @@ def real_layout(name, dims_order, eta_grid):
     return Layout(name, [1, 1], dims_order, eta_grid, [0, 0])
 
 
+def own_tools(basis):
+    """an interpolator and a spline of the harness's own on the same space: the coefficients the code computes (same calls,
+    same bits) without touching the state of the object under test"""
+    from pygyro.splines.splines import Spline1D
+    from pygyro.splines.spline_interpolators import SplineInterpolator1D
+    return SplineInterpolator1D(basis), Spline1D(basis)
+
+
 def spline_coeff_rows(interp, spline, cols):
     """the coefficients the code itself computes for each column (same calls, same bits)"""
     out = []
